@@ -64,6 +64,13 @@ func GenPFB(t *sim.Tape, maxSegs, maxLen int, allow ...PFBAnomaly) (*PFBStream, 
 	if an != PFBWellFormed && an != PFBPartialHeader && n == 0 {
 		n = 1
 	}
+	// occasionally a long run of empty segments (legal: a zero length is a
+	// length like any other)
+	if t.Choose(150) == 0 {
+		for i := 90 + t.Choose(200); i > 0; i-- {
+			p.Segs = append(p.Segs, PFBSeg{Marker: 0x80, Type: byte(1 + t.Choose(2)*t.Choose(2))})
+		}
+	}
 	for i := 0; i < n; i++ {
 		s := PFBSeg{Marker: 0x80, Type: byte(1 + t.Choose(2))}
 		l := 0
